@@ -56,7 +56,7 @@ def encode_string(s: str) -> bytes:
     return bytes(s, 'utf-8')
 
 
-entity_re = re.compile(r'&(#?)([xX]?)(\d{1,5}|\w{1,8});')
+entity_re = re.compile(r'&(?:(#)([xX]?))?(\d{1,5}|\w{1,8});')
 
 module_cache = {}
 
